@@ -1,0 +1,205 @@
+//go:build verif
+
+package dilithium
+
+// Contracts for the deductive verifier in /verif (govc).  Comment-only file, compiled only with
+// the build tag `verif`; it adds no symbol.  Syntax: see /verif/DESIGN.md section 2.6.
+
+//@ func montgomeryReduce
+//@   props C12
+//@   requires -2147483648*Q <= a && a < 2147483648*Q
+//@   ensures[C12] result * 4294967296 == a - spec.MontT(a)*Q
+//@   ensures -Q < result && result < Q
+
+//@ func reduce32
+//@   props C12
+//@   requires a <= 2147483647 - 4194304
+//@   ensures[C12] (result - a) % Q == 0
+//@   ensures -6283009 <= result && result <= 6283008
+
+//@ func cAddQ
+//@   props C12
+//@   requires -Q <= a && a < Q
+//@   ensures[C12] (result - a) % Q == 0
+//@   ensures 0 <= result && result < Q
+
+//@ func power2Round
+//@   props C12
+//@   requires 0 <= a && a < Q
+//@   ensures[C12] result == spec.P2R_hi(a) && *a0 == spec.P2R_lo(a)
+//@   ensures a == result*8192 + *a0 && -4096 < *a0 && *a0 <= 4096 && 0 <= result && result < 1024
+//@   assigns *a0
+
+//@ func decompose
+//@   props C12
+//@   requires 0 <= a && a < Q
+//@   ensures[C12] result == spec.HighBits(a) && *a0 == spec.LowBits(a)
+//@   ensures 0 <= result && result < 16 && -GAMMA2 <= *a0 && *a0 <= GAMMA2
+//@   assigns *a0
+
+//@ func makeHint
+//@   props C12
+//@   ensures result == 0 || result == 1
+//@   ensures[C12] result == 1 <==> (a0 > GAMMA2 || a0 < -GAMMA2 || (a0 == -GAMMA2 && a1 != 0))
+
+//@ func useHint
+//@   props C12
+//@   requires 0 <= a && a < Q
+//@   requires hint == 0 || hint == 1
+//@   ensures[C12] result == spec.UseHint(hint, a)
+//@   ensures 0 <= result && result < 16
+
+//@ pred polyIn(p, lo, hi) := forall k_ :: 0 <= k_ && k_ < N ==> lo <= p.coeffs[k_] && p.coeffs[k_] <= hi
+//@ pred arrAbsLt(a, lo, hi, b) := forall k_ :: lo <= k_ && k_ < hi ==> -b < a[k_] && a[k_] < b
+
+//@ func ntt
+//@   props C12
+//@   nooverflow
+//@   requires arrAbsLt(a, 0, N, Q)
+//@   ensures arrAbsLt(a, 0, N, 9*Q)
+//@   assigns *a
+//@   loop 1 invariant spec.nttLenOK(count) && k == spec.nttK0(count)
+//@   loop 1 invariant arrAbsLt(a, 0, N, (spec.nttLvl(count)+1)*Q)
+//@   loop 2 invariant spec.nttLenOK(count) && count > 0 && start <= N && spec.nttAligned(start, count)
+//@   loop 2 invariant k == spec.nttK0(count) + spec.nttBlk(start, count)
+//@   loop 2 invariant arrAbsLt(a, 0, start, (spec.nttLvl(count)+2)*Q) && arrAbsLt(a, start, N, (spec.nttLvl(count)+1)*Q)
+//@   loop 3 invariant start <= j && j <= start + count && start + 2*count <= N && -Q < zeta && zeta < Q
+//@   loop 3 invariant arrAbsLt(a, 0, start, (spec.nttLvl(count)+2)*Q) && arrAbsLt(a, start, j, (spec.nttLvl(count)+2)*Q)
+//@   loop 3 invariant arrAbsLt(a, j, start+count, (spec.nttLvl(count)+1)*Q)
+//@   loop 3 invariant arrAbsLt(a, start+count, j+count, (spec.nttLvl(count)+2)*Q) && arrAbsLt(a, j+count, N, (spec.nttLvl(count)+1)*Q)
+
+//@ func invNTTToMont
+//@   props C12
+//@   nooverflow
+//@   requires arrAbsLt(a, 0, N, Q)
+//@   ensures arrAbsLt(a, 0, N, Q)
+//@   assigns *a
+//@   loop 1 invariant spec.inttLenOK(count) && k == spec.inttK0(count)
+//@   loop 1 invariant arrAbsLt(a, 0, N, count*Q)
+//@   loop 2 invariant spec.inttLenOK(count) && count < N && start <= N && spec.nttAligned(start, count)
+//@   loop 2 invariant k == spec.inttK0(count) - spec.nttBlk(start, count)
+//@   loop 2 invariant arrAbsLt(a, 0, start, 2*count*Q) && arrAbsLt(a, start, N, count*Q)
+//@   loop 3 invariant start <= j && j <= start + count && start + 2*count <= N && -Q < zeta && zeta < Q
+//@   loop 3 invariant arrAbsLt(a, 0, start, 2*count*Q) && arrAbsLt(a, start, j, 2*count*Q)
+//@   loop 3 invariant arrAbsLt(a, j, start+count, count*Q)
+//@   loop 3 invariant arrAbsLt(a, start+count, j+count, 2*count*Q) && arrAbsLt(a, j+count, N, count*Q)
+//@   loop 4 invariant j <= N && arrAbsLt(a, 0, j, Q) && arrAbsLt(a, j, N, 256*Q)
+
+//@ func polyCAddQ
+//@   props C12
+//@   requires polyIn(a, -Q, Q-1)
+//@   ensures polyIn(a, 0, Q-1)
+//@   ensures[C12] forall k :: 0 <= k && k < N ==> (a.coeffs[k] - old(a.coeffs[k])) % Q == 0
+//@   assigns *a
+//@   loop 1 invariant 0 <= i && i <= N
+//@   loop 1 invariant forall k :: 0 <= k && k < i ==> 0 <= a.coeffs[k] && a.coeffs[k] < Q && (a.coeffs[k] - old(a.coeffs[k])) % Q == 0
+//@   loop 1 invariant forall k :: i <= k && k < N ==> a.coeffs[k] == old(a.coeffs[k])
+
+//@ func polyReduce
+//@   props C12
+//@   requires polyIn(a, -2147483648, 2147483647 - 4194304)
+//@   ensures polyIn(a, -6283009, 6283008)
+//@   ensures[C12] forall k :: 0 <= k && k < N ==> (a.coeffs[k] - old(a.coeffs[k])) % Q == 0
+//@   assigns *a
+//@   loop 1 invariant 0 <= i && i <= N
+//@   loop 1 invariant forall k :: 0 <= k && k < i ==> -6283009 <= a.coeffs[k] && a.coeffs[k] <= 6283008 && (a.coeffs[k] - old(a.coeffs[k])) % Q == 0
+//@   loop 1 invariant forall k :: i <= k && k < N ==> a.coeffs[k] == old(a.coeffs[k])
+
+//@ func polyAdd
+//@   props C12
+//@   alias c a
+//@   nooverflow
+//@   requires forall k :: 0 <= k && k < N ==> -2147483648 <= a.coeffs[k] + b.coeffs[k] && a.coeffs[k] + b.coeffs[k] <= 2147483647
+//@   ensures[C12] forall k :: 0 <= k && k < N ==> c.coeffs[k] == old(a.coeffs[k]) + old(b.coeffs[k])
+//@   assigns *c
+//@   loop 1 invariant 0 <= i && i <= N
+//@   loop 1 invariant forall k :: 0 <= k && k < i ==> c.coeffs[k] == old(a.coeffs[k]) + old(b.coeffs[k])
+//@   loop 1 invariant forall k :: i <= k && k < N ==> a.coeffs[k] == old(a.coeffs[k]) && b.coeffs[k] == old(b.coeffs[k])
+
+//@ func polySub
+//@   props C12
+//@   alias c a
+//@   nooverflow
+//@   requires forall k :: 0 <= k && k < N ==> -2147483648 <= a.coeffs[k] - b.coeffs[k] && a.coeffs[k] - b.coeffs[k] <= 2147483647
+//@   ensures[C12] forall k :: 0 <= k && k < N ==> c.coeffs[k] == old(a.coeffs[k]) - old(b.coeffs[k])
+//@   assigns *c
+//@   loop 1 invariant 0 <= i && i <= N
+//@   loop 1 invariant forall k :: 0 <= k && k < i ==> c.coeffs[k] == old(a.coeffs[k]) - old(b.coeffs[k])
+//@   loop 1 invariant forall k :: i <= k && k < N ==> a.coeffs[k] == old(a.coeffs[k]) && b.coeffs[k] == old(b.coeffs[k])
+
+//@ func polyShiftL
+//@   props C12
+//@   requires polyIn(a, 0, 1023)
+//@   ensures[C12] forall k :: 0 <= k && k < N ==> a.coeffs[k] == old(a.coeffs[k]) * 8192
+//@   assigns *a
+//@   loop 1 invariant 0 <= i && i <= N
+//@   loop 1 invariant forall k :: 0 <= k && k < i ==> a.coeffs[k] == old(a.coeffs[k]) * 8192
+//@   loop 1 invariant forall k :: i <= k && k < N ==> a.coeffs[k] == old(a.coeffs[k])
+
+//@ func polyNTT
+//@   inline
+//@ func polyInvNTTToMont
+//@   inline
+
+//@ func polyPointWiseMontgomery
+//@   props C12
+//@   alias c b
+//@   requires forall k :: 0 <= k && k < N ==> -2147483648*Q <= a.coeffs[k]*b.coeffs[k] && a.coeffs[k]*b.coeffs[k] < 2147483648*Q
+//@   ensures[C12] forall k :: 0 <= k && k < N ==> c.coeffs[k]*4294967296 == old(a.coeffs[k])*old(b.coeffs[k]) - spec.MontT(old(a.coeffs[k])*old(b.coeffs[k]))*Q
+//@   ensures polyIn(c, -Q+1, Q-1)
+//@   assigns *c
+//@   loop 1 invariant 0 <= i && i <= N
+//@   loop 1 invariant forall k :: 0 <= k && k < i ==> -Q < c.coeffs[k] && c.coeffs[k] < Q && c.coeffs[k]*4294967296 == old(a.coeffs[k])*old(b.coeffs[k]) - spec.MontT(old(a.coeffs[k])*old(b.coeffs[k]))*Q
+//@   loop 1 invariant forall k :: i <= k && k < N ==> a.coeffs[k] == old(a.coeffs[k]) && b.coeffs[k] == old(b.coeffs[k])
+
+//@ func polyPower2Round
+//@   props C12
+//@   alias a1 a
+//@   requires polyIn(a, 0, Q-1)
+//@   ensures[C12] forall k :: 0 <= k && k < N ==> a1.coeffs[k] == spec.P2R_hi(old(a.coeffs[k])) && a0.coeffs[k] == spec.P2R_lo(old(a.coeffs[k]))
+//@   ensures polyIn(a1, 0, 1023) && polyIn(a0, -4095, 4096)
+//@   assigns *a1, *a0
+//@   loop 1 invariant 0 <= i && i <= N
+//@   loop 1 invariant forall k :: 0 <= k && k < i ==> a1.coeffs[k] == spec.P2R_hi(old(a.coeffs[k])) && a0.coeffs[k] == spec.P2R_lo(old(a.coeffs[k])) && 0 <= a1.coeffs[k] && a1.coeffs[k] <= 1023 && -4095 <= a0.coeffs[k] && a0.coeffs[k] <= 4096
+//@   loop 1 invariant forall k :: i <= k && k < N ==> a.coeffs[k] == old(a.coeffs[k])
+
+//@ func polyDecompose
+//@   props C12
+//@   alias a1 a
+//@   requires polyIn(a, 0, Q-1)
+//@   ensures[C12] forall k :: 0 <= k && k < N ==> a1.coeffs[k] == spec.HighBits(old(a.coeffs[k])) && a0.coeffs[k] == spec.LowBits(old(a.coeffs[k]))
+//@   ensures polyIn(a1, 0, 15) && polyIn(a0, -GAMMA2, GAMMA2)
+//@   assigns *a1, *a0
+//@   loop 1 invariant 0 <= i && i <= N
+//@   loop 1 invariant forall k :: 0 <= k && k < i ==> a1.coeffs[k] == spec.HighBits(old(a.coeffs[k])) && a0.coeffs[k] == spec.LowBits(old(a.coeffs[k])) && 0 <= a1.coeffs[k] && a1.coeffs[k] <= 15 && -GAMMA2 <= a0.coeffs[k] && a0.coeffs[k] <= GAMMA2
+//@   loop 1 invariant forall k :: i <= k && k < N ==> a.coeffs[k] == old(a.coeffs[k])
+
+//@ func polyUseHint
+//@   props C12
+//@   alias b a
+//@   requires polyIn(a, 0, Q-1) && polyIn(h, 0, 1)
+//@   ensures[C12] forall k :: 0 <= k && k < N ==> b.coeffs[k] == spec.UseHint(old(h.coeffs[k]), old(a.coeffs[k]))
+//@   ensures polyIn(b, 0, 15)
+//@   assigns *b
+//@   loop 1 invariant 0 <= i && i <= N
+//@   loop 1 invariant forall k :: 0 <= k && k < i ==> b.coeffs[k] == spec.UseHint(old(h.coeffs[k]), old(a.coeffs[k])) && 0 <= b.coeffs[k] && b.coeffs[k] <= 15
+//@   loop 1 invariant forall k :: i <= k && k < N ==> a.coeffs[k] == old(a.coeffs[k]) && h.coeffs[k] == old(h.coeffs[k])
+
+//@ func polyChkNorm
+//@   props C12
+//@   requires polyIn(a, -6283009, 6283008)
+//@   ensures result == 0 || result == 1
+//@   ensures[C12] result == 1 <==> (B > (Q-1)/8 || exists k :: 0 <= k && k < N && spec.CAbs(a.coeffs[k]) >= B)
+//@   loop 1 invariant 0 <= i && i <= N && B <= (Q-1)/8
+//@   loop 1 invariant forall k :: 0 <= k && k < i ==> spec.CAbs(a.coeffs[k]) < B
+
+// ---- spec-level lemmas (no code): discharged as obligations of their own ----
+
+//@ pred mhCode(a0, a1) := a0 > GAMMA2 || a0 < -GAMMA2 || (a0 == -GAMMA2 && a1 != 0)
+
+//@ lemma dilithium.L_makehint[C12,C03] : forall a0, a1 :: 0 <= a1 && a1 < 16 && -2*GAMMA2 < a0 && a0 < 2*GAMMA2 ==> (mhCode(a0, a1) <==> spec.HighBits(a1*2*GAMMA2 + a0) != a1)
+//@ lemma dilithium.L_usehint[C12,C03] : forall r, z :: 0 <= r && r < Q && -GAMMA2 <= z && z <= GAMMA2 ==> spec.UseHint(spec.MakeHint(z, r), r) == spec.HighBits(r + z)
+//@ lemma dilithium.L_hint_code_shape[C12,C03] : forall w1, r0, u :: 0 <= w1 && w1 < 16 && -(GAMMA2-BETA) < r0 && r0 < GAMMA2-BETA && -GAMMA2 < u && u < GAMMA2 ==> spec.UseHint(ite(mhCode(r0+u, w1), 1, 0), (w1*2*GAMMA2 + r0 + u) % Q) == w1
+//@ lemma dilithium.L_mont_witness[C12] : forall a :: (a - spec.MontT(a)*Q) % 4294967296 == 0
+//@ lemma dilithium.L_p2r[C12] : forall r :: 0 <= r && r < Q ==> r == spec.P2R_hi(r)*8192 + spec.P2R_lo(r) && -4096 < spec.P2R_lo(r) && spec.P2R_lo(r) <= 4096
+//@ lemma dilithium.L_decompose[C12] : forall r :: 0 <= r && r < Q ==> (r - (spec.HighBits(r)*2*GAMMA2 + spec.LowBits(r))) % Q == 0 && -GAMMA2 <= spec.LowBits(r) && spec.LowBits(r) <= GAMMA2 && 0 <= spec.HighBits(r) && spec.HighBits(r) < 16
